@@ -865,3 +865,80 @@ def run_pattern_parens(prog, tier, repo):
                               f'formatted (or renamed) document no longer denotes the same program')
     res.floor('parenthesised documents in pattern printers', n, 1)
     return [res]
+
+
+# ---------------------------------------------------------------------------------------------------------------------
+# PAREN-UNARY-LEVEL (C08): whether an operand of *equal* precedence needs parentheses is dictated by the parser. The unary
+# production parses its operand with the next tighter production (a postfix chain), not with itself, so `!!a` / `--a` do not
+# parse; the printer must therefore parenthesise a unary operand that is itself unary (equal level). The rule reads the
+# parser side from the MIR (does the function that builds `E::Unary` obtain the operand from itself or from another
+# production?) and requires the printer's decision for `Unary.argument` to parenthesise at equal precedence accordingly.
+
+def run_paren_unary_level(prog, tier, repo):
+    from ..cfg import single_def
+    res = RuleResult('PAREN-UNARY-LEVEL', 'C08: a unary operand of equal precedence is parenthesised, because the parser\'s unary '
+                     'production takes a tighter production (not itself) as its operand')
+    # parser side
+    recursive = None
+    where = None
+    for b in prog.bodies.values():
+        if b.crate != 'samlang_parser' or '::tests' in b.name:
+            continue
+        for bl in b.blocks:
+            if bl.cleanup:
+                continue
+            for st in bl.stmts:
+                if st[0] == 'a' and st[2][0] == 'agg' and st[2][1][0] == 'adt' and st[2][1][1].endswith('source::expr::Unary'):
+                    adt = prog.adts.get(st[2][1][1])
+                    fn = [f.name for f in adt.variants[0].fields]
+                    o = st[2][2][fn.index('argument')]
+                    # Box::new(x) <- x <- call g(parser)
+                    cur = o[1].local if o[0] in ('c', 'm') else None
+                    g = None
+                    for _ in range(6):
+                        sd = single_def(b, cur) if cur is not None else None
+                        if not sd:
+                            break
+                        if sd[1] == 'term':
+                            nm = callee(sd[2])[1] or ''
+                            if nm.split('::')[-1] in ('new',) and sd[2][3] and sd[2][3][0][0] in ('c', 'm'):
+                                cur = sd[2][3][0][1].local
+                                continue
+                            g = callee(sd[2])[0]
+                            break
+                        if sd[2][0] == 'use' and sd[2][1][0] in ('c', 'm'):
+                            cur = sd[2][1][1].local
+                            continue
+                        break
+                    if g is None:
+                        continue
+                    rec = (g == b.id)
+                    recursive = rec if recursive is None else (recursive and rec)
+                    where = b
+    if recursive is None:
+        res.cannot_decide('the parser production that builds E::Unary and the production it takes its operand from')
+        return [res]
+    # printer side: the decider call for Unary.argument
+    n = 0
+    for b in prog.bodies.values():
+        if b.crate != 'samlang_printer' or '::tests' in b.name:
+            continue
+        for bi, t in call_sites(b, lambda nm: nm.endswith('create_doc_for_subexpression_considering_precedence_level')):
+            sub = t[3][3] if len(t[3]) >= 5 else None
+            if sub is None:
+                continue
+            r, p = operand_root(b, sub)
+            fs = [e for e in p if e[0] == 'f']
+            if not fs or not prog.adts[fs[-1][1]].name.endswith('expr::Unary') or fs[-1][4] != 'argument':
+                continue
+            n += 1
+            flag = t[3][4]
+            key = f'unary-operand:{b.name}'
+            if recursive or (flag[0] == 'k' and flag[1].i == 1):
+                res.ok(key, b.loc(t[7]), 'equal-precedence unary operand is parenthesised' if not recursive else 'the parser accepts nested unary operators')
+            else:
+                res.violation(key, b.loc(t[7]), f'{b.name} prints a unary operand without parentheses when it has the same precedence as the '
+                              f'unary expression itself, but {where.name} parses the operand with a tighter production: `!(!a)` is '
+                              f'printed as `!!a` and `-(-b)` as `--b`, which do not parse')
+    res.floor('unary operand decisions', n, 1)
+    return [res]
